@@ -288,6 +288,9 @@ func (c *otApplyContext) applyGPOSPair1(inner tables.PairPosData1, index int) bo
 	buffer := c.buffer
 	skippyIter := &c.iterInput
 	pos := skippyIter.idx
+	if index >= len(inner.PairSets) { // invalid font: coverage larger than the pair sets
+		return false
+	}
 	set := inner.PairSets[index]
 	record, ok := set.FindGlyph(gID(buffer.Info[skippyIter.idx].Glyph))
 	if !ok {
